@@ -298,7 +298,7 @@ pub fn run_property(prop: Property, make_gens: impl FnOnce(&Ctx) -> Vec<Gen<'sta
                 Some(Err(p)) => {
                     // a panic that escaped the case's own guards is a harness
                     // defect (oracle bug), never a verdict
-                    harness_panics.push(format!("{}[{}]: {} @ {}", g.name, i, p.msg, p.loc));
+                    harness_panics.push(format!("{}[{}]: {} @ {}", g.name, i, p.msg.chars().take(400).collect::<String>(), p.loc));
                 }
                 Some(Ok(cr)) => {
                     g_eval += 1;
@@ -342,6 +342,7 @@ pub fn run_property(prop: Property, make_gens: impl FnOnce(&Ctx) -> Vec<Gen<'sta
     let mut new_viol: Vec<(String, usize, Violation)> = vec![];
     let mut seen_sig: HashSet<String> = HashSet::new();
     let mut new_total = 0u64;
+    let mut by_sig: BTreeMap<String, u64> = BTreeMap::new();
     for (g, i, v) in all_viol {
         if let Some(f) = findings.iter().find(|f| finding_matches(f, &v)) {
             *known_hits.entry(f.id.clone()).or_insert(0) += 1;
@@ -349,11 +350,18 @@ pub fn run_property(prop: Property, make_gens: impl FnOnce(&Ctx) -> Vec<Gen<'sta
         }
         new_total += 1;
         let key = serde_json::to_string(&v.sig).unwrap_or_default();
+        *by_sig.entry(key.clone()).or_insert(0) += 1;
         if seen_sig.insert(key) && new_viol.len() < 25 {
             new_viol.push((g, i, v));
         }
     }
 
+    if by_sig.len() > 1 {
+        eprintln!("  unlisted violations by signature ({} distinct):", by_sig.len());
+        for (k, n) in by_sig.iter().take(60) {
+            eprintln!("    {:>7}  {}", n, k);
+        }
+    }
     let replay_dir = verif_root().join("replay");
     std::fs::create_dir_all(&replay_dir).ok();
     let mut lines: Vec<String> = vec![];
